@@ -225,6 +225,7 @@ mod verif_c13_general_handler {
     //@ obligation C13 C13.install_new_table.installed_entry_is_default_interrupt_gate bounded="prior table = InterruptDescriptorTable::new()"
     //@ obligation C13 C13.install_new_table.all_other_entries_untouched bounded="prior table = InterruptDescriptorTable::new()"
     #[kani::proof]
+    #[kani::unwind(2)]
     #[kani::stub(crate::addr::VirtAddr::new, virt_addr_new_unchecked)]
     fn c13_install_range_inclusive_new_table() {
         verif_hw::reset_symbolic();
